@@ -1,1 +1,146 @@
-fn main() {}
+//! actix-server monitors C01–C08. Needs the hooks build (`--cfg actix_net_verif`).
+
+#[cfg(actix_net_verif)]
+mod bp;
+#[cfg(actix_net_verif)]
+mod engine;
+#[cfg(actix_net_verif)]
+mod monitor;
+#[cfg(actix_net_verif)]
+mod probes;
+
+#[cfg(not(actix_net_verif))]
+fn main() {
+    eprintln!("vh-server: built without --cfg actix_net_verif; the behavioural monitors need the hooks build");
+    std::process::exit(2);
+}
+
+#[cfg(actix_net_verif)]
+fn main() {
+    use vh_core::{fnv_str, Args, Report, Rng, Value};
+    vh_core::install_quiet_panic_hook();
+    let args = Args::parse();
+    if args.prop == "__warm__" {
+        return;
+    }
+    let mut rep = Report::new(&args);
+    let prop = args.prop.clone();
+    match prop.as_str() {
+        "C02" | "C03" | "C04" => {
+            let mut seen = bp::Seen::default();
+            let run_one = |scn: &bp::Scn, rep: &mut Report, seen: &mut bp::Seen| {
+                rep.evaluations += 1;
+                let mut out = bp::run_scenario(scn, seen);
+                let mut tries = 0;
+                while let bp::Outcome::Inconclusive(_) = out {
+                    tries += 1;
+                    if tries > 2 {
+                        break;
+                    }
+                    out = bp::run_scenario(scn, seen);
+                }
+                match out {
+                    bp::Outcome::Held => rep.nontrivial(fnv_str(&scn.shape())),
+                    bp::Outcome::Violated(fails) => {
+                        let mut kept = 0;
+                        for f in fails {
+                            if f.sig.starts_with(&prop) {
+                                kept += 1;
+                                let mut rp = scn.to_json();
+                                rp["prop"] = Value::String(prop.clone());
+                                rep.violation(f.sig, format!("{} [{}]", f.desc, scn.shape()), rp);
+                            } else {
+                                rep.count("other_property_violations_seen");
+                            }
+                        }
+                        if kept == 0 {
+                            rep.nontrivial(fnv_str(&scn.shape()));
+                        }
+                    }
+                    bp::Outcome::Inconclusive(why) => rep.inconclusive(&why),
+                }
+            };
+            if let Some(p) = &args.replay {
+                let v: Value = serde_json::from_str(&std::fs::read_to_string(p).expect("replay file")).unwrap();
+                if let Some(seed) = v["case_seed"].as_u64() {
+                    let scn = bp::Scn::from_seed(seed);
+                    for _ in 0..5 {
+                        run_one(&scn, &mut rep, &mut seen);
+                    }
+                    rep.note(format!("replay: {} of 5 runs violated", rep.violations_total.min(5)));
+                } else {
+                    rep.note("replay: probe witnesses are re-checked by the probe sweep");
+                    if prop == "C03" {
+                        probes::run_c03_probes(&args, &mut rep);
+                    } else {
+                        probes::run_c04_probes(&args, &mut rep);
+                    }
+                }
+                rep.rule = "replay of one recorded scenario (5 runs)".into();
+                std::process::exit(rep.finish(&args));
+            }
+            // probes first (cheap, exhaustive)
+            let probes_on = args.extra_u64("noprobes", 0) == 0;
+            if prop == "C03" && probes_on {
+                probes::run_c03_probes(&args, &mut rep);
+            }
+            if prop == "C04" && probes_on {
+                probes::run_c04_probes(&args, &mut rep);
+            }
+            let n = match args.tier.as_str() {
+                "thorough" => 1600,
+                "miri" => 0,
+                _ => 96,
+            };
+            let n = args.extra_u64("n", n);
+            let mut rng = Rng::new(args.seed ^ 0xB0).fork(args.shard);
+            // a fixed grid first (all limits x workers), then random shapes
+            let mut grid: Vec<u64> = Vec::new();
+            for i in 0..n {
+                grid.push(rng.next_u64() ^ i);
+            }
+            for (i, seed) in grid.iter().enumerate() {
+                if !args.mine(i as u64) {
+                    continue;
+                }
+                if rep.violations_total >= 6 && probes_on || rep.violations_total >= 40 {
+                    rep.note("stopped early after 6 violations");
+                    break;
+                }
+                let mut scn = bp::Scn::from_seed(*seed);
+                // make sure every (workers, limit) pair is visited: the first 12 scenarios of the run form the grid
+                if i < 12 {
+                    scn.workers = 1 + i % 3;
+                    scn.limit = 1 + i / 3;
+                }
+                run_one(&scn, &mut rep, &mut seen);
+                if i < 3 * args.nshards as usize {
+                    rep.sample(|| scn.to_json());
+                }
+            }
+            rep.rule = "back-pressure scenarios on a real server: workers 1..3 x limit 1..4 (full grid first, then seeded shapes) x {TCP, UDS, TCP+UDS} x {Actix System, plain Tokio} x optional failpoints (send<->inc, dec<->wake, recv<->call, accept<->dispatch, handle_waker) x optional concurrent-release stress; \
+                        phases: first round (sequential clients), saturate all workers, queue extra clients, release one held connection at a time, partial-set round; after every step the barrier (guard-drop completion + no-op command ping + idle snapshot + pick-up) is reached and the quiescent-point rules are evaluated on the ordered hook log: \
+                        C02 shadow in-flight <= limit at every Dispatch and service-call concurrency per worker thread <= limit, nothing dispatched while all are saturated; C03 no connection waits in a backlog while a live worker has a free slot; C04 windows of W dispatches hit W distinct workers while unsaturated, a released slot is refilled on the releasing worker, the available set is covered. \
+                        Plus exhaustive probes of the real Counter / guard / Availability types. Distinct = distinct scenario shape; non-trivial = scenario ran to the end with its barriers reached."
+                .into();
+            rep.add("obs_quiescent_points", seen.quiescent_points);
+            rep.add("obs_quiescent_with_pending_and_no_spare", seen.quiescent_with_pending_and_no_spare);
+            rep.add("obs_saturations", seen.saturations);
+            rep.add("obs_releases_after_saturation", seen.releases_after_saturation);
+            rep.add("obs_redispatch_after_release", seen.redispatch_after_release);
+            rep.add("obs_rr_windows_checked", seen.rr_windows_checked);
+            rep.add("obs_rr_partial_sets_checked", seen.rr_partial_sets_checked);
+            rep.add("obs_dispatch_bound_checks", seen.bound_checks);
+            rep.add("obs_release_logged_before_next_accept_step", seen.dec_before_inc_races);
+            rep.add("obs_failpoint_delays_fired", seen.failpoint_hits);
+            rep.max("max_in_flight_seen", seen.max_in_flight_seen);
+            rep.add("obs_boundary_concurrency_checks", seen.boundary_concurrency_checks);
+            rep.add("obs_stress_phases", seen.stress_phases);
+        }
+        p => {
+            eprintln!("vh-server: unknown property {p}");
+            std::process::exit(2);
+        }
+    }
+    std::process::exit(rep.finish(&args));
+}
